@@ -433,7 +433,7 @@ def run_spec(env, spec, certify=None, bound=HANG_BOUND, keep=False):
         e = dict(C.BASE_ENV)
         e.update({"HOME": home, "XDG_CONFIG_HOME": os.path.join(home, ".config"), "RUST_BACKTRACE": "0", "TZ": "UTC"})
         p = subprocess.run([env.xvc, "pipeline", "import", "--file", os.path.join(base, "pipeline.json"), "--overwrite"],
-                           cwd=root, env=e, stdout=subprocess.PIPE, stderr=subprocess.PIPE, text=True, errors="replace", timeout=120)
+                           cwd=root, env=e, stdout=subprocess.PIPE, stderr=subprocess.PIPE, text=True, errors="replace", timeout=300)
         first = {k: v for k, v in spec.items() if k != "second"}
         rr = RunResult()
         rr.spec, rr.base = first, base
@@ -696,6 +696,7 @@ def make_certify(env):
     return certify
 
 
+SKIPPED = []      # cases given up for infrastructure reasons (reported in the evidence)
 TERMINAL = ("DoneByRunning(", "DoneWithoutRunning(", "Broken(")
 
 
@@ -955,8 +956,19 @@ def two_run_spec(rng, label="tworun"):
 def run_cases(env, specs, workers=None):
     certify = make_certify(env)
     workers = workers or max(4, min(12, (C.NPROC * 3) // 4))
+    def safe(sp):
+        # a stalled machine (import of a pipeline timing out, a full disk, ...) must not turn into a
+        # verdict about the property: the case is repeated once and otherwise skipped and counted
+        for attempt in (0, 1):
+            try:
+                return run_spec(env, sp, certify=certify)
+            except (subprocess.TimeoutExpired, OSError) as e:
+                log("infrastructure problem on a case (attempt %d): %r" % (attempt, e))
+                time.sleep(2)
+        SKIPPED.append(strip_spec(sp))
+        return []
     with ThreadPoolExecutor(workers) as ex:
-        rrs = list(ex.map(lambda sp: run_spec(env, sp, certify=certify), specs))
+        rrs = list(ex.map(safe, specs))
     return [rr for l in rrs for rr in l]
 
 
@@ -1162,6 +1174,7 @@ def drive(chk, env, prop, specs, nontrivial, max_reports=3):
                  {"input": strip_spec(sp), "journal": rr.journal, "trace_tail": rr.trace[-12:], "model": out[:400],
                   "theorem_or_correspondence": "trace validation of M-SCHED (sched-accept) / graph correspondence; theorems of Props/%s.v rest on it" % prop,
                   "kind": "broken-correspondence"}, name="corr", has_input=False)
+    stats["skipped_for_infrastructure_reasons"] = len(SKIPPED)
     stats["oracle_failures"] = len(failures)
     stats["correspondence_failures"] = len(corr)
     return stats, rrs, infos, specs
